@@ -24,6 +24,7 @@ import (
 	"github.com/gauss-project/aurorafs/pkg/routetab/pb"
 	_ "github.com/gauss-project/aurorafs/pkg/shed/leveldb"
 	ldbstate "github.com/gauss-project/aurorafs/pkg/statestore/leveldb"
+	mockstate "github.com/gauss-project/aurorafs/pkg/statestore/mock"
 	"github.com/gauss-project/aurorafs/pkg/storage"
 	"github.com/gauss-project/aurorafs/pkg/zzverif/mc"
 )
@@ -157,6 +158,20 @@ func c27Shift(x *mc.X, tab *Table, store storage.StateStorer, d time.Duration) {
 		e.p.UsedTime = e.p.UsedTime.Add(-d)
 		e.p.CreateTime = e.p.CreateTime.Add(-d)
 		x.NoErr(store.Put(e.k, e.p), "rewrite persisted path")
+	}
+}
+
+// c27Wipe removes every route-table key from the shared store.
+func c27Wipe(x *mc.X, store storage.StateStorer) {
+	for _, prefix := range []string{pathPrefix, routePrefix} {
+		var keys []string
+		x.NoErr(store.Iterate(prefix, func(k, _ []byte) (bool, error) {
+			keys = append(keys, string(k))
+			return false, nil
+		}), "iterate for wipe")
+		for _, k := range keys {
+			x.NoErr(store.Delete(k), "wipe")
+		}
 	}
 }
 
@@ -309,7 +324,15 @@ func c27Ops() []c27Op {
 }
 
 func TestVerifC27(t *testing.T) {
-	depth := mc.EnvInt("VERIF_C27_DEPTH", mc.Pick(5, 6))
+	c27Run(t, "C27-table-opseq", false, mc.EnvInt("VERIF_C27_DEPTH", mc.Pick(5, 6)))
+}
+
+// the same exploration, shallower, on the real leveldb state store
+func TestVerifC27Leveldb(t *testing.T) {
+	c27Run(t, "C27-table-opseq-leveldb", true, mc.EnvInt("VERIF_C27_LDB_DEPTH", mc.Pick(3, 4)))
+}
+
+func c27Run(t *testing.T, name string, useLdb bool, depth int) {
 	menu := make([]*pb.Path, len(c27Menu))
 	for i, s := range c27Menu {
 		menu[i] = c27BuildPath(s)
@@ -336,19 +359,48 @@ func TestVerifC27(t *testing.T) {
 	savedTTL := atomic.LoadInt32(&MaxTTL)
 	defer func() { NeighborAlpha = savedAlpha; atomic.StoreInt32(&MaxTTL, savedTTL) }()
 	logger := logging.New(ioutil.Discard, 0)
+	storeName := "statestore/mock (fresh per execution)"
+	if useLdb {
+		storeName = "statestore/leveldb in-memory (shared by up to 64 executions, emptied before each)"
+	}
 
-	mc.Run(t, mc.Config{ID: "C27", Name: "C27-table-opseq", MaxDev: -1, Params: map[string]interface{}{
+	var ldb storage.StateStorer
+	ldbUses := 0
+	defer func() {
+		if ldb != nil {
+			ldb.Close()
+		}
+	}()
+
+	mc.Run(t, mc.Config{ID: "C27", Name: name, MaxDev: -1, Params: map[string]interface{}{
 		"depth": depth, "alpha": []int{1, 2}, "nodes": "s(self) a b c d", "path_menu": c27Menu, "ops": opNames,
 		"observed_every_state": "Get(t) for all 5 nodes; GetNextHop(t, skips) for all 5 nodes x all 16 skip subsets of {a,b,c,d}",
 		"clock":                "tick = all in-memory and persisted timestamps shifted 2h into the past; gc-old = Gc(1h); gc-all = Gc(-1h)",
-		"store":                "statestore/leveldb in-memory", "max_ttl": 10}},
+		"store":                storeName, "max_ttl": 10}},
 		func(x *mc.X) {
 			alpha := 1 + x.Choose(2)
 			NeighborAlpha = int32(alpha)
 			atomic.StoreInt32(&MaxTTL, 10)
-			store, err := ldbstate.NewInMemoryStateStore(logger)
-			x.NoErr(err, "state store")
-			defer store.Close()
+			var store storage.StateStorer
+			if useLdb {
+				// opening/closing an in-memory leveldb costs ~70 ms and deleted keys
+				// slow its iterators down, so one store is shared by up to 64
+				// executions and emptied before each of them (logically fresh).
+				if ldb == nil || ldbUses >= 64 {
+					if ldb != nil {
+						ldb.Close()
+					}
+					var err error
+					ldb, err = ldbstate.NewInMemoryStateStore(logger)
+					x.NoErr(err, "state store")
+					ldbUses = 0
+				}
+				ldbUses++
+				c27Wipe(x, ldb)
+				store = ldb
+			} else {
+				store = mockstate.NewStateStore()
+			}
 			self := c27Nodes[0]
 			tab := newRouteTable(self, store)
 			m := &c27Model{live: map[int]bool{}, old: map[int]bool{}}
@@ -470,9 +522,13 @@ func TestVerifC27(t *testing.T) {
 						}
 					}
 				}
+				if x.Replaying() {
+					// this state was observed and checked when the prefix was first executed
+					continue
+				}
 				c27Oracle(x, tab, m, alpha, reloaded, fmt.Sprintf("after step %d (%s)", step, opNames[oi]))
 				key := fmt.Sprintf("a%d r%v M[%s] %s", alpha, reloaded, m, c27Canon(x, tab, store))
-				if x.Seen(key, depth-step-1) { println("DBG pruned at step", step)
+				if x.Seen(key, depth-step-1) {
 					return
 				}
 			}
